@@ -151,6 +151,7 @@ const (
 	VMethodVal         // a method value x.M
 	VFunc              // a declared function used as a value
 	VAlias             // an alias of a caller-side variable (parameter bound to an identifier)
+	VNonNil            // an unknown value known not to be nil (a returned variable a branch decided); never bound in the environment
 )
 
 // Value is an abstract value.
